@@ -45,7 +45,12 @@ def run_sink(case):
     ctrl = Controller(out, cm, matcher.always, matcher.never)
     ui = PersistentUIState(ctrl)
     outs = []
+    def fresh(x):
+        # the gdb backend builds its connection ids with 'gdb_conn:' + hex(ptr): equal strings, distinct objects
+        return ''.join(list(x)) if isinstance(x, str) else x
+
     for e in case['events']:
+        e = [e[0]] + [fresh(x) for x in e[1:]]
         st = len(log)
         extra = []
         try:
@@ -63,7 +68,7 @@ def run_sink(case):
     conns = list(cm.connection_list)
     allm = []
     for m in ctrl.all_messages:
-        ci = conns.index(m.obj.connection) if m.obj.connection in conns else -1
+        ci = implsession.conn_index_of(conns, m)
         allm.append([ci, implsession.canon_msg(m)])
     cur = [conns.index(ctrl.current_connection)] if getattr(ctrl, 'current_connection', None) in conns else []
     final = [[implsession.canon_conn(c) for c in conns], str(ctrl.display_matcher), str(ctrl.stop_matcher), cur, allm,
